@@ -225,8 +225,10 @@ func runTunnelScript(t *testing.T, line string) (trace string) {
 	return canonical(log)
 }
 
-// canonical orders observations by (time, text): what happens within one virtual instant in
-// different goroutines has no defined order.
+// canonical orders observations by (time, kind), keeping the execution order of observations of
+// the same kind within one virtual instant: transmissions of one goroutine stay in order, while a
+// transmission and a return that happen in different goroutines at the same instant are
+// normalised.
 func canonical(log []string) string {
 	type ent struct {
 		t int64
@@ -245,7 +247,7 @@ func canonical(log []string) string {
 		if es[i].t != es[j].t {
 			return es[i].t < es[j].t
 		}
-		return es[i].s < es[j].s
+		return strings.Fields(es[i].s)[0] < strings.Fields(es[j].s)[0]
 	})
 	out := make([]string, len(es))
 	for i, e := range es {
